@@ -25,7 +25,7 @@ RULE = (
     "fail or fail on their first j attempts, retry in {None,1..4,custom}, max_errors, workers, scheduler and a schedule. "
     "Oracle: no call starts more often than its allowed attempts (exactly min(j+1, n) for a flaky call that ran); in a "
     "successful run the set of started calls equals the spec-level ancestors of the output, each exactly once, and the "
-    "number of executed built-in gather/unpack calls equals the number of node-holding containers/unpacks in that part. "
+    "number of executed built-in gather calls does not exceed the number of node-holding containers in that part. "
     "Non-trivial = the output excludes >= 1 call, or fan-in >= 2 under >= 2 workers with an engine-level context switch "
     "(or real threads). Distinct = SHA-1 of the case."
 )
@@ -116,8 +116,10 @@ def check_case(ctx, case, record=True):
         if set(obs) != need["exec"]:
             ctx.violation(case2, f"successful run executed calls {sorted(obs)}, expected exactly {sorted(need['exec'])}")
         g = sum(v for k, v in counter.items() if k.startswith("gather_"))
-        if g != need["gathers"]:
-            ctx.violation(case2, f"{g} built-in gather calls executed, expected {need['gathers']} ({dict(counter)})")
+        # upper bound only: more executions than node-holding containers means a built-in call ran twice or an
+        # unneeded one ran; fewer is an implementation's business (it may fuse nested gathers)
+        if g > need["gathers"]:
+            ctx.violation(case2, f"{g} built-in gather calls executed, at most {need['gathers']} are needed ({dict(counter)})")
         nun = sum(1 for i in need["active"] if spec["nodes"][i]["k"] == "unpack")
         if counter["unpack"] != nun:
             ctx.violation(case2, f"{counter['unpack']} unpack calls executed, expected {nun}")
